@@ -117,8 +117,11 @@ def check_faithful(res, prop, sig, conds, via_query):
     es, tt = new_state(bb)
     try:
         if via_query:
+            # the queries of one group are translated one after the other on ONE epistemic state and all carry the same
+            # free-form text label: the clauses must depend on the formulas, not on the label or on earlier queries
             enc = {}
             for k, c in bb.conditionals.items():
+                c.textRepresentation = "(q|label)"
                 v, f = tt.query_to_cnf(c)
                 enc[k] = {"v": v, "f": f}
         else:
